@@ -23,7 +23,7 @@ VARIABLE c
 \* ASSUMEs and everything about initial states on the main thread, whose stack is too small for the 400-character literals)
 ModelsOK == (c.fam = "literal" /\ c.id = "1e308") => ExponentAlgebraOK /\ MultifactorialOK /\ LiteralModelOK
 
-AllCases == ExpCases \cup FactCases \cup NestCases \cup LitCases \cup SizeCases(Long) \cup PolyCases \cup AnsCases \cup MsgCases
+AllCases == ExpCases \cup FactCases \cup HugeFactCases \cup NestCases \cup LitCases \cup SizeCases(Long) \cup PolyCases \cup AnsCases \cup MsgCases
 
 Init == c = [fam |-> "init"]
 Next == c.fam = "init" /\ c' \in AllCases
